@@ -67,10 +67,270 @@ theorem getBlockProof_no_panic (H : Bytes → Bytes) (hasDb : Bool) (s : Store) 
     | (intro he; split at he <;> first | (cases he; done) | (simp only [Res.err.injEq] at he; subst he; exact absurd ‹_ = Res.err Err.panic› ‹¬ _›))
 
 
+
+/-- every short-node key in the tree consists of nibbles (what `DeserializeNode` checks since f270208) -/
+def NibKeys : WN → Prop
+  | .short k _ c _ _ => isNibbles k = true ∧ NibKeys c
+  | .routing _ ch _ _ _ => ∀ i, NibKeys (ch i)
+  | _ => True
+
+theorem nibKeys_deserializeChild (c : Bytes) (n : WN) (h : deserializeChild c = .ok (some n)) : NibKeys n := by
+  unfold deserializeChild at h
+  repeat' (split at h)
+  all_goals first
+    | (simp at h; done)
+    | (simp only [Res.ok.injEq, Option.some.injEq] at h; subst h; simp_all [NibKeys])
+
+theorem nibKeys_deserializeChildren (cs : List Bytes) (ns : List WN) (w : Nat)
+    (h : deserializeChildren cs = .ok (ns, w)) : ∀ n ∈ ns, NibKeys n := by
+  induction cs generalizing ns w with
+  | nil => simp [deserializeChildren] at h; intro n hn; rw [h.1] at hn; cases hn
+  | cons c rest ih =>
+    simp only [deserializeChildren] at h
+    split at h
+    · simp at h
+    · rename_i o ho
+      split at h
+      · simp at h
+      · rename_i ns' w' hr
+        split at h
+        · rename_i node
+          simp only [Res.ok.injEq, Prod.mk.injEq] at h
+          intro n hn; rw [← h.1] at hn
+          rcases List.mem_cons.mp hn with rfl | hn
+          · exact nibKeys_deserializeChild c _ ho
+          · exact ih ns' w' hr n hn
+        · simp only [Res.ok.injEq, Prod.mk.injEq] at h
+          intro n hn; rw [← h.1] at hn
+          rcases List.mem_cons.mp hn with rfl | hn
+          · simp [NibKeys]
+          · exact ih ns' w' hr n hn
+
+theorem nibKeys_ofList (ns : List WN) (h : ∀ n ∈ ns, NibKeys n) (i : Nib) : NibKeys (ofList ns i) := by
+  unfold ofList
+  by_cases hi : i.val < ns.length
+  · simp only [List.getD, List.getElem?_eq_getElem hi, Option.getD_some]; exact h _ (List.getElem_mem hi)
+  · simp only [List.getD, List.getElem?_eq_none (by omega : ns.length ≤ i.val), Option.getD_none]; simp [NibKeys]
+
+theorem nibKeys_deserializeNode (p : PBase) (n : WN) (h : deserializeNode p = .ok n) : NibKeys n := by
+  unfold deserializeNode at h
+  repeat' (split at h)
+  all_goals first
+    | (simp at h; done)
+    | (simp only [Res.ok.injEq] at h; subst h; simp_all [NibKeys]; done)
+    | (simp only [Res.ok.injEq] at h; subst h; intro i; exact nibKeys_ofList _ (nibKeys_deserializeChildren _ _ _ ‹_›) i)
+
+theorem nibKeys_resolveHash (hasDb : Bool) (s : Store) (h : Bytes) (n : WN) (hr : resolveHash hasDb s h = .ok n) :
+    NibKeys n := by
+  unfold resolveHash at hr
+  repeat' (split at hr)
+  all_goals first
+    | (simp at hr; done)
+    | exact nibKeys_deserializeNode _ _ hr
+
+
+theorem commonPrefix_le (a b : Bytes) : commonPrefix a b ≤ a.length ∧ commonPrefix a b ≤ b.length := by
+  induction a generalizing b with
+  | nil => cases b <;> simp [commonPrefix]
+  | cons x a ih =>
+    cases b with
+    | nil => simp [commonPrefix]
+    | cons y b =>
+      simp only [commonPrefix]
+      split
+      · have := ih b; simp; omega
+      · simp
+
+theorem nibOf_of_isNibbles (k : Bytes) (h : isNibbles k = true) (p : Nat) (hp : p < k.length) :
+    ∃ i, nibOf (k.getD p 0) = some i := by
+  have hx : (k[p]).toNat < 16 := by
+    have := List.all_eq_true.mp h (k[p]) (List.getElem_mem hp)
+    simpa using this
+  refine ⟨⟨(k[p]).toNat, hx⟩, ?_⟩
+  simp [List.getD, List.getElem?_eq_getElem hp, nibOf, hx]
+
+theorem resolveOrSelf_no_panic (hasDb : Bool) (s : Store) (node : WN) :
+    (match node with | .hashRef h _ => resolveHash hasDb s h | n => Res.ok n) ≠ .err .panic := by
+  split
+  · exact resolveHash_no_panic _ _ _
+  · simp
+
+theorem resolveOrSelf_nibKeys (hasDb : Bool) (s : Store) (node n : WN) (hn : NibKeys node)
+    (h : (match node with | .hashRef h _ => resolveHash hasDb s h | n => Res.ok n) = .ok n) : NibKeys n := by
+  split at h
+  · exact nibKeys_resolveHash _ _ _ _ h
+  · simp only [Res.ok.injEq] at h; subst h; exact hn
+
+theorem insert_no_panic (hasDb : Bool) (s : Store) (fuel : Nat) (node : WN) (key : List Nib) (vh vv : Bytes) (vw : Nat)
+    (vd : Bool) (hn : NibKeys node) :
+    (insert hasDb s fuel node key (.value vh vv vw vd)).err ≠ some .panic := by
+  generalize hv : WN.value vh vv vw vd = value
+  revert hn
+  fun_induction insert hasDb s fuel node key value
+  all_goals intro hn he
+  all_goals try simp only [] at he
+  all_goals try simp only [NibKeys] at hn
+  all_goals first
+    | (cases he; done)
+    | (subst hv; exact (by assumption : ∀ (hash nv : Bytes) (nw : Nat) (dirty : Bool), WN.value vh vv vw vd = WN.value hash nv nw dirty → False) _ _ _ _ rfl)
+    | (simp only [Option.some.injEq] at he; subst he; first
+        | exact absurd ‹_ = Res.err Err.panic› (resolveOrSelf_no_panic _ _ _)
+        | exact absurd ‹resolveHash _ _ _ = Res.err Err.panic› (resolveHash_no_panic _ _ _)
+        | solve_by_elim [nibKeys_resolveHash, And.right])
+    | solve_by_elim [nibKeys_resolveHash, And.right]
+    | skip
+  case case15 =>
+    rename_i fuel k ks value key h c d tc kb p hne1 hne2 x
+    have hp := commonPrefix_le key kb
+    have hkb : kb.length = (k :: ks).length := by simp [kb]
+    have h1 : p < key.length := by have := hp.1; omega
+    have h2 : p < (k :: ks).length := by have := hp.2; omega
+    obtain ⟨i1, hi1⟩ := nibOf_of_isNibbles key hn.1 p h1
+    exact x i1 ((k :: ks)[p]) hi1 (List.getElem?_eq_getElem h2)
+
+
+theorem markKids_no_panic (hasDb : Bool) (s : Store) (ch : Nib → WN) (keys : List (List Nib))
+    (hk : ∀ k ∈ keys, k ≠ []) : (markKids hasDb s ch keys).2 ≠ some .panic := by
+  induction keys generalizing ch with
+  | nil => simp [markKids]
+  | cons k rest ih =>
+    cases k with
+    | nil => exact absurd rfl (hk [] (by simp))
+    | cons x ks =>
+      simp only [markKids]
+      have hm := markToCollect_no_panic hasDb s (fuelFor (x :: ks) - 1) (ch x) ks
+      split
+      · rename_i e he; intro hp; simp only [Option.some.injEq] at hp; subst hp; exact hm he
+      · exact ih _ (fun k' hk' => hk k' (List.mem_cons_of_mem _ hk'))
+
+theorem markAll_no_panic (hasDb : Bool) (s : Store) (n : WN) (keys : List (List Nib)) :
+    (markAll hasDb s n keys).err ≠ some .panic := by
+  induction keys generalizing n with
+  | nil => simp [markAll]
+  | cons k rest ih =>
+    simp only [markAll]
+    have hm := markToCollect_no_panic hasDb s (fuelFor k) n k
+    split
+    · rename_i e he; intro hp; simp only [Option.some.injEq] at hp; subst hp; exact hm he
+    · exact ih _
+
+theorem hashCost_setClean (n : WN) : hashCost (setClean n) = 0 := by cases n <;> simp [setClean, hashCost]
+
+theorem hashCost_deserializeChild (c : Bytes) (n : WN) (h : deserializeChild c = .ok (some n)) : hashCost n = 0 := by
+  unfold deserializeChild at h
+  repeat' (split at h)
+  all_goals first
+    | (simp at h; done)
+    | (simp only [Res.ok.injEq, Option.some.injEq] at h; subst h; simp [hashCost])
+
+theorem hashCost_deserializeChildren (cs : List Bytes) (ns : List WN) (w : Nat)
+    (h : deserializeChildren cs = .ok (ns, w)) : ∀ n ∈ ns, hashCost n = 0 := by
+  induction cs generalizing ns w with
+  | nil => simp [deserializeChildren] at h; intro n hn; rw [h.1] at hn; cases hn
+  | cons c rest ih =>
+    simp only [deserializeChildren] at h
+    split at h
+    · simp at h
+    · rename_i o ho
+      split at h
+      · simp at h
+      · rename_i ns' w' hr
+        split at h
+        · simp only [Res.ok.injEq, Prod.mk.injEq] at h
+          intro n hn; rw [← h.1] at hn
+          rcases List.mem_cons.mp hn with rfl | hn
+          · exact hashCost_deserializeChild c _ ho
+          · exact ih ns' w' hr n hn
+        · simp only [Res.ok.injEq, Prod.mk.injEq] at h
+          intro n hn; rw [← h.1] at hn
+          rcases List.mem_cons.mp hn with rfl | hn
+          · simp [hashCost]
+          · exact ih ns' w' hr n hn
+
+theorem hashCost_ofList (ns : List WN) (h : ∀ n ∈ ns, hashCost n = 0) (i : Nib) : hashCost (ofList ns i) = 0 := by
+  unfold ofList
+  by_cases hi : i.val < ns.length
+  · simp only [List.getD, List.getElem?_eq_getElem hi, Option.getD_some]; exact h _ (List.getElem_mem hi)
+  · simp only [List.getD, List.getElem?_eq_none (by omega : ns.length ≤ i.val), Option.getD_none]; simp [hashCost]
+
+/-- the children of a freshly decoded branch are clean -/
+theorem hashCost_children_deserializeNode (p : PBase) (h : Bytes) (ch : Nib → WN) (w : Nat) (d tc : Bool)
+    (hd : deserializeNode p = .ok (.routing h ch w d tc)) : ∀ i, hashCost (ch i) = 0 := by
+  unfold deserializeNode at hd
+  repeat' (split at hd)
+  all_goals first
+    | (simp at hd; done)
+    | (simp only [Res.ok.injEq, WN.routing.injEq] at hd
+       obtain ⟨_, rfl, _⟩ := hd
+       intro i; exact hashCost_ofList _ (hashCost_deserializeChildren _ _ _ ‹_›) i)
+
+theorem sum_zero_of_all_zero (l : List Nat) (h : ∀ x ∈ l, x = 0) : l.sum = 0 := by
+  induction l with
+  | nil => rfl
+  | cons a l ih => simp [h a (by simp), ih (fun x hx => h x (List.mem_cons_of_mem _ hx))]
+
+/-- with the fix, verifying a proof costs one hash per proof element consumed: linear -/
+theorem verifyCost_linear (ps : List PairD) (block : Nat) (n : WN) (k : Nat)
+    (h : verifyCost true ps block = some (n, k)) : k ≤ ps.length ∧ hashCost n = 0 := by
+  induction ps generalizing block n k with
+  | nil => simp [verifyCost] at h
+  | cons q rest ih =>
+    cases q with
+    | nilPair => simp [verifyCost] at h
+    | bad => simp [verifyCost] at h
+    | ok p =>
+      simp only [verifyCost] at h
+      split at h
+      · simp at h
+      · rename_i nd hd
+        split at h
+        · rename_i hh ch w d tc
+          split at h
+          · simp at h
+          · rename_i i b' hp
+            split at h
+            · simp at h
+            · rename_i c k' hr
+              simp only [if_true, Option.some.injEq, Prod.mk.injEq] at h
+              obtain ⟨hc1, hc2⟩ := ih b' c k' hr
+              have hch := hashCost_children_deserializeNode p hh ch w d tc hd
+              have hs : (allNib.map (fun j => hashCost (upd ch i c j))).sum = 0 := by
+                apply sum_zero_of_all_zero
+                intro x hx
+                obtain ⟨j, _, rfl⟩ := List.mem_map.mp hx
+                by_cases hj : j = i <;> simp [upd, hj, hc2, hch]
+              refine ⟨?_, by rw [← h.1]; exact hashCost_setClean _⟩
+              rw [← h.2]; simp only [hashCost, if_true, hs, List.length_cons]; omega
+        · rename_i kk hh c d tc
+          split at h
+          · simp at h
+          · split at h
+            · simp at h
+            · rename_i c' k' hr
+              simp only [if_true, Option.some.injEq, Prod.mk.injEq] at h
+              obtain ⟨hc1, hc2⟩ := ih block c' k' hr
+              refine ⟨?_, by rw [← h.1]; exact hashCost_setClean _⟩
+              rw [← h.2]; simp only [hashCost, if_true, hc2, List.length_cons]; omega
+        · split at h
+          · simp at h
+          · simp only [if_true, Option.some.injEq, Prod.mk.injEq] at h
+            refine ⟨?_, by rw [← h.1]; exact hashCost_setClean _⟩
+            rw [← h.2]; simp [hashCost]
+        · simp at h
+
+
+/-- before 75bbdaf (flag kept) every level hashes everything below it again: 4 + 3 + 2 + 1 = 10 hash computations for
+    4 elements (n(n+1)/2); with the fix: 4 -/
+theorem verifyCost_old_quadratic_witness :
+    (verifyCost false chainProof 1).map (·.2) = some 10 ∧ (verifyCost true chainProof 1).map (·.2) = some 4 := by
+  decide
+
 end Verif.Wmpt
 
 namespace Verif.Props.C15WmptOps
 open Verif.Wmpt
+
+def deepBranchEx : WN := .short [1, 2] [] (.routing [] noCh 0 false false) false false
 
 /-- Delete on any accepted trie shape, any key: a value or an error, never a panic -/
 theorem wmpt_delete_no_panic (H : Bytes → Bytes) (hasDb : Bool) (s : Store) (fuel : Nat) (n : WN) (key : List Nib) :
@@ -109,12 +369,46 @@ theorem wmpt_blockProof_no_panic (H : Bytes → Bytes) (t : WT) (block : Nat) : 
       | err e => simp only []; intro he; simp only [Res.err.injEq] at he; subst he; exact hexToKeybytes_no_panic _ hk
     | err e => rw [hr] at h1; cases e <;> simp_all
 
+/-- Update's walk (`insert` with the two ErrInvalidKey guards of 5dc7120) with a value node, on any trie whose short keys
+    are nibbles (`NibKeys`: what `DeserializeNode` guarantees since f270208 — `nibKeys_deserializeNode`; every node loaded
+    from storage has it — `nibKeys_resolveHash`), any key, store and fuel: a value or an error, never a panic -/
+theorem wmpt_insert_no_panic (hasDb : Bool) (s : Store) (fuel : Nat) (n : WN) (key : List Nib) (vh vv : Bytes) (vw : Nat)
+    (vd : Bool) (hn : NibKeys n) : (insert hasDb s fuel n key (.value vh vv vw vd)).err ≠ some .panic :=
+  insert_no_panic hasDb s fuel n key vh vv vw vd hn
+
+/-- non-vacuity of `NibKeys`: a short node over a branch below the key depth -/
+example : NibKeys deepBranchEx := by simp [deepBranchEx, NibKeys, isNibbles, noCh]
+
+/-- GetPath's marking, sequential strategy: any keys -/
+theorem wmpt_markAll_no_panic (hasDb : Bool) (s : Store) (n : WN) (keys : List (List Nib)) :
+    (markAll hasDb s n keys).err ≠ some .panic := markAll_no_panic hasDb s n keys
+
+/-- GetPath's marking, parallel strategy (branch root, more than `pathParallelThreshold` keys), under the declared
+    precondition that keys are non-empty (wmpt keys are 32 bytes = 64 nibbles) -/
+theorem wmpt_markParallel_no_panic (hasDb : Bool) (s : Store) (n : WN) (keys : List (List Nib))
+    (hk : ∀ k ∈ keys, k ≠ []) : (markParallel hasDb s n keys).err ≠ some .panic := by
+  cases n with
+  | routing h ch w d tc => simpa [markParallel] using markKids_no_panic hasDb s ch keys hk
+  | nil => simpa [markParallel] using markAll_no_panic hasDb s _ keys
+  | empty => simpa [markParallel] using markAll_no_panic hasDb s _ keys
+  | hashRef h w => simpa [markParallel] using markAll_no_panic hasDb s _ keys
+  | value h v w d => simpa [markParallel] using markAll_no_panic hasDb s _ keys
+  | short k h c d tc => simpa [markParallel] using markAll_no_panic hasDb s _ keys
+
+/-- the precondition is needed: an EMPTY caller key in the parallel strategy indexes `k[0]` (a caller error, not an
+    import defect) -/
+theorem markParallel_empty_key_panics :
+    (markParallel false [] (.routing [] noCh 0 false false) [[]]).err = some .panic := by
+  simp [markParallel, markKids]
+
 /-- combined statement for the single-key operations -/
 theorem wmpt_accepted_no_panic (H : Bytes → Bytes) (hasDb : Bool) (s : Store) (fuel : Nat) (n : WN) (key : List Nib)
     (block : Nat) (pre : Bytes) :
     (delete H hasDb s fuel n key).err ≠ some .panic ∧ (markToCollect hasDb s fuel n key).err ≠ some .panic ∧
-    (getBlockProof H hasDb s fuel n block pre).res ≠ .err .panic :=
-  ⟨delete_no_panic H hasDb s fuel n key, markToCollect_no_panic hasDb s fuel n key, getBlockProof_no_panic H hasDb s fuel n block pre⟩
+    (getBlockProof H hasDb s fuel n block pre).res ≠ .err .panic ∧
+    (NibKeys n → ∀ vh vv vw vd, (insert hasDb s fuel n key (.value vh vv vw vd)).err ≠ some .panic) :=
+  ⟨delete_no_panic H hasDb s fuel n key, markToCollect_no_panic hasDb s fuel n key, getBlockProof_no_panic H hasDb s fuel n block pre,
+    fun hn vh vv vw vd => insert_no_panic hasDb s fuel n key vh vv vw vd hn⟩
 
 /-! ### Negative witnesses: one fix reverted, a shape the import decoders accept -/
 
@@ -158,5 +452,17 @@ theorem hexToKeybytes_fixed_witness : hexToKeybytes [1, 2, 3] = .err .invalidKey
 /-- 527796b reverted: a storage-less trie whose root is a reference (the import of an export of no keys) -/
 theorem getPath_old_panics : getPathRootOld { root := .hashRef [1] 0, hasDb := false } = .err .panic := by
   simp [getPathRootOld]
+
+/-! ### "promptly": VerifyBlockProof is linear in the number of proof elements (fix 75bbdaf) -/
+
+/-- with the fix, the number of hash computations of `verifyProof` is at most the number of proof elements (c = 1, c' = 0),
+    and the rebuilt node is clean.  (`verifyCost` counts over shapes and dirty flags only; the cost of one hash is
+    linear in the element's size.) -/
+theorem wmpt_verify_steps_linear (ps : List PairD) (block : Nat) (n : WN) (k : Nat)
+    (h : verifyCost true ps block = some (n, k)) : k ≤ ps.length := (verifyCost_linear ps block n k h).1
+
+/-- non-vacuity and contrast: the 4-element chain costs 4 with the fix and 10 = 4·5/2 before it -/
+theorem wmpt_verify_old_quadratic : (verifyCost false chainProof 1).map (·.2) = some 10 ∧
+    (verifyCost true chainProof 1).map (·.2) = some 4 := verifyCost_old_quadratic_witness
 
 end Verif.Props.C15WmptOps
